@@ -270,7 +270,7 @@ func solveOne(o *Obligation, file string, opts solveOpts) *SolveResult {
 			return res
 		}
 	}
-	race := []solverSpec{solvers[0], solvers[1]}
+	race := []solverSpec{solvers[0], solvers[1], solvers[2]}
 	ch := make(chan answer, len(race))
 	ctx, cancel := context.WithCancel(context.Background())
 	for _, sp := range race {
@@ -294,6 +294,8 @@ func solveOne(o *Obligation, file string, opts solveOpts) *SolveResult {
 					cancel()
 					break
 				}
+				// thorough: the other solvers get a bounded extra time to confirm or contradict
+				time.AfterFunc(10*time.Second, cancel)
 			} else {
 				if a.status != res.Status {
 					res.Output = fmt.Sprintf("solver disagreement: %s says %s, %s says %s", res.Solver, res.Status, a.sp.name, a.status)
@@ -308,17 +310,8 @@ func solveOne(o *Obligation, file string, opts solveOpts) *SolveResult {
 		}
 	}
 	cancel()
-	if res.Solver == "" {
-		status, out, ms := runSolver(solvers[2], file, opts.secs, opts.seed)
-		res.Tried = append(res.Tried, fmt.Sprintf("%s:%s:%dms", solvers[2].name, status, ms))
-		if status == "unsat" || status == "sat" {
-			res.Status, res.Solver, res.Ms, res.Output = status, solvers[2].name, ms, out
-			if status == "sat" {
-				res.Model = out
-			}
-		} else if len(answers) > 0 {
-			res.Output = answers[len(answers)-1].out
-		}
+	if res.Solver == "" && len(answers) > 0 {
+		res.Output = answers[len(answers)-1].out
 	}
 	return res
 }
